@@ -174,8 +174,11 @@ def pytype_pred(cname, pred):
             if p.null is not None:
                 ex.oblige(st, 'deref', z3.Not(p.null), n,
                           text='%s(%s) on possibly-NULL' % (cname, o.name))
-            return BoolV(o.extra.setdefault(pred, z3.Bool('%s(%s)' % (
-                pred, o.name))))
+            if pred not in o.extra:
+                o.extra[pred] = z3.Bool('%s(%s)' % (pred, o.name))
+                ex.axioms.append(z3.Implies(z3.Or(o.ismat, o.issp),
+                                            z3.Not(o.extra[pred])))
+            return BoolV(o.extra[pred])
         raise Unsupported('%s of %r' % (cname, p))
     return h
 
@@ -202,8 +205,11 @@ def type_has_feature(ex, st, n, args):
     if isinstance(t, PtrV) and t.obj is not None and z3.is_int_value(flag):
         pred = names.get(flag.as_long(), 'flag%x' % flag.as_long())
         o = t.obj
-        return BoolV(o.extra.setdefault(pred, z3.Bool('%s(%s)' % (
-            pred, o.name))))
+        if pred not in o.extra:
+            o.extra[pred] = z3.Bool('%s(%s)' % (pred, o.name))
+            ex.axioms.append(z3.Implies(z3.Or(o.ismat, o.issp),
+                                        z3.Not(o.extra[pred])))
+        return BoolV(o.extra[pred])
     raise Unsupported('PyType_HasFeature')
 
 
@@ -236,8 +242,11 @@ def obj_typecheck(ex, st, n, args):
             return BoolV(o.issp)
         pred = {'PyFloat_Type': 'isfloat', 'PyComplex_Type': 'iscomplex',
                 'PySlice_Type': 'isslice'}.get(tname, 'is_' + tname)
-        return BoolV(o.extra.setdefault(pred, z3.Bool('%s(%s)' % (
-            pred, o.name))))
+        if pred not in o.extra:
+            o.extra[pred] = z3.Bool('%s(%s)' % (pred, o.name))
+            ex.axioms.append(z3.Implies(z3.Or(o.ismat, o.issp),
+                                        z3.Not(o.extra[pred])))
+        return BoolV(o.extra[pred])
     raise Unsupported('PyObject_TypeCheck %r %s' % (p, tname))
 
 
